@@ -201,25 +201,25 @@ NOT_APPLICABLE = {
 
 # clauses added after the first build (rounds 3-4 of seeded changes), appended to the level text of the property
 ADDED = {
-    'C01': ' REAL values are written with exactly six decimals; the join keys of the loader (shared with C03) are typed by the association role model.',
+    'C01': ' REAL values are written with exactly six decimals; the join keys of the loader (shared with C03) are typed by the association role model. A STRING token is taken apart only by [1:-1] plus quote un-doubling.',
     'C02': ' The partner sets keep their linked-list invariant under add / discard / pop (shape analysis, shared with C17); referential attributes '
-           'are read through the declared cell (shared with C10).',
+           'are read through the declared cell (shared with C10). Navigations accumulate into containers of their own; MetaClass.new pools the instance before relating it; the loader strips every stored referential copy.',
     'C03': ' A shared referential attribute chains to the property installed before under the same name; all input channels decode text alike; '
            'the batch connect is mirrored (shared with C02) and reads keys through Class.__getattr__ (shared with C10).',
     'C04': ' List nodes are built in source order, keyword fields are read case-normalised, navigation and link operations are the tables of C09 / C02 (shared rule groups).',
-    'C05': ' Identifiers are installed and looked up exactly as spelled; every select form writes the cardinality it read; is_global is a truth table over the package hierarchy.',
-    'C06': ' A parameter read is resolved along a navigation from the owning element; no None child reaches a statement list; identifiers are looked up exactly as spelled.',
-    'C07': ' Sibling productions agree on the node class of keyword-qualified invocations and on the kind of symbol each node field receives; a possibly empty statement is never added to a list unguarded.',
+    'C05': ' Identifiers are installed and looked up exactly as spelled; every select form writes the cardinality it read; is_global is a truth table over the package hierarchy. Every path through a text generator writes or delegates.',
+    'C06': ' A parameter read is resolved along a navigation from the owning element; no None child reaches a statement list; identifiers are looked up exactly as spelled. The statement context (act_smt) is forwarded by every dispatching handler.',
+    'C07': ' Sibling productions agree on the node class of keyword-qualified invocations and on the kind of symbol each node field receives; a possibly empty statement is never added to a list unguarded. Different fixed words build different nodes; words naming other tokens stay identifiers.',
     'C08': ' Keyword fields of child nodes (typed from the grammar actions) are followed as well, and symbol-table lookups are sinks.',
-    'C09': ' WhereEqual is a table over all component outcomes including the empty filter; the result sets keep their linked-list invariant (shape analysis, shared with C17).',
+    'C09': ' WhereEqual is a table over all component outcomes including the empty filter; the result sets keep their linked-list invariant (shape analysis, shared with C17). A stale raw copy in the instance dictionary does not influence the equality filter.',
     'C10': ' __delattr__ is tabled over the declared attributes as well; the index keys of the loader use the association spelling (shared with C03).',
     'C12': ' Every value lexeme the grammar accepts gets a type name (automata inclusion against guess_type_name); constructs that raise by themselves on malformed data '
-           '(zip(strict=True), unguarded delattr, an element of split()) are not used unguarded on the input routes.',
-    'C13': ' No partial converter (int, float, ...) is applied to token text while parsing; endlexpos is computed from the matched text, not from a re-bound value.',
-    'C15': ' The numbering loop of an enumeration walks the sequence sort_reflexive returns.',
-    'C18': ' Nothing kept by the loader or its statements is a one-shot iterator; a rejected input leaves nothing behind (shared with C12).',
+           '(zip(strict=True), unguarded delattr, an element of split()) are not used unguarded on the input routes. Exception messages are built from literal format strings; no converter runs on token text inside a grammar action.',
+    'C13': ' No partial converter (int, float, ...) is applied to token text while parsing; endlexpos is computed from the matched text, not from a re-bound value. text_input feeds the parser the text it was given.',
+    'C15': ' The numbering loop of an enumeration walks the sequence sort_reflexive returns. run_* keep no module-level cache; loop control and bare return behave as C04 decides (shared).',
+    'C18': ' Nothing kept by the loader or its statements is a one-shot iterator; a rejected input leaves nothing behind (shared with C12). MetaModel.clone resolves the class in the receiving metamodel.',
     'C19': ' MetaModel.new and calling a metaclass forward their arguments to MetaClass.new unchanged; a given generator of any kind is stored.',
-    'C20': ' The builders keep no state between generations (no memoising decorator, mutable default or module-level container); a user type restricts its immediate base; loops over selected elements run to their end.',
+    'C20': ' The builders keep no state between generations (no memoising decorator, mutable default or module-level container); a user type restricts its immediate base; loops over selected elements run to their end. An enumeration / structure declaration is returned on every path.',
 }
 
 ALL = ['C%02d' % i for i in range(1, 21)]
